@@ -176,7 +176,61 @@ func PropC01(c *vs.Case, f Factory, kind string) error {
 			}
 			history = append(history, fmt.Sprintf("sync#%d", env.Syncs))
 		}
-		switch c.Weighted(3, 2, 2, 2) {
+		switch c.Weighted(3, 2, 2, 2, 1, 1) {
+		case 5: // scale to zero, let the children go, someone re-creates one of them differently, scale back
+			n, _ := env.Parent()["spec"].(map[string]any)["replicas"].(int64)
+			var gone []map[string]any
+			for _, o := range env.OwnedChildren() {
+				gone = append(gone, o)
+			}
+			if scn.Cfg.Kind != "composite" || n == 0 || len(gone) == 0 {
+				break
+			}
+			setReplicas := func(v int64) {
+				env.W.Sim.ExtUpdate(scn.Cfg.ParentResource, scn.ParentNS(), scn.ParentName(), func(obj map[string]any) {
+					obj["spec"].(map[string]any)["replicas"] = v
+				})
+			}
+			setReplicas(0)
+			for i := 0; i < 3; i++ {
+				if _, e := step("recycle"); e != nil {
+					return e
+				}
+			}
+			o := gone[c.Int(len(gone))]
+			d := env.W.Sim.DefByKind(o["apiVersion"].(string), o["kind"].(string))
+			if env.W.Sim.Get(d.Resource, metaStr(o, "namespace"), metaStr(o, "name")) == nil {
+				obj := map[string]any{"apiVersion": d.APIVersion(), "kind": d.Kind, "metadata": map[string]any{"name": metaStr(o, "name"), "labels": env.MatchLabels()}}
+				if ns := metaStr(o, "namespace"); ns != "" {
+					obj["metadata"].(map[string]any)["namespace"] = ns
+				}
+				if d.Resource == "configmaps" {
+					obj["data"] = map[string]any{"v": "someone-elses"}
+				} else {
+					obj["spec"] = map[string]any{"v": "someone-elses"}
+				}
+				if _, err := env.W.Sim.ExtCreate(d.Resource, obj); err == nil {
+					c.Class("history:recycled-name-recreated")
+				}
+			}
+			setReplicas(n)
+			history = append(history, "scale-to-zero, re-create "+ObjID(o)+" as matching orphan, scale back")
+		case 4: // someone creates an adoptable object under the name of a replicated child (desired or not right now)
+			tpl := scn.Prog.Children[c.Int(len(scn.Prog.Children))]
+			d := env.W.Sim.Def(tpl.Resource)
+			if scn.Cfg.Kind == "composite" && d.Namespaced && scn.ParentNS() != "" {
+				name := fmt.Sprintf("%s-%s-%d", scn.ParentName(), strings.ToLower(d.Kind[:1]), c.Int(3))
+				obj := map[string]any{"apiVersion": d.APIVersion(), "kind": d.Kind, "metadata": map[string]any{"name": name, "namespace": scn.ParentNS(), "labels": env.MatchLabels()}}
+				if tpl.Resource == "configmaps" {
+					obj["data"] = map[string]any{"v": "someone-elses"}
+				} else {
+					obj["spec"] = map[string]any{"v": "someone-elses"}
+				}
+				if _, err := env.W.Sim.ExtCreate(tpl.Resource, obj); err == nil {
+					history = append(history, "ext-create matching orphan "+name)
+					c.Class("history:orphan-on-replicated-name")
+				}
+			}
 		case 1: // parent spec edit
 			which := c.Int(3)
 			env.W.Sim.ExtUpdate(scn.Cfg.ParentResource, scn.ParentNS(), scn.ParentName(), func(obj map[string]any) {
